@@ -18,6 +18,8 @@ from . import base
 ID = "C05"
 LEVEL = "exploration"
 RULE = (
+    "the first 2496 runs of every batch ENUMERATE the bounded grid of the quantifier exhaustively (N 0..12) x (k 1..N+2) x thermalisation "
+    "on/off x (0/2/3 probes) x screening on/off x (fixed/scripted dt sequence); the remaining runs are seeded samples: "
     "histories = (save interval k, run length N, dt sequence incl. retries/adaptive, thermalisation, "
     "probes, screening, output destination) drawn by a seeded generator; a history is non-trivial when "
     "the run recorded at least two frames or hit a boundary case (k=1, N=0, N%k in {0,k-1}, thermalisation); "
@@ -30,15 +32,31 @@ COMPONENTS = {
 }
 
 
+# the bounded grid of the property's quantifier, enumerated exhaustively by the first GRID_SIZE runs
+GRID = [
+    (N, k, therm, probes, screen, mode)
+    for N in range(0, 13)
+    for k in range(1, N + 3)
+    for therm in (False, True)
+    for probes in (0, 2, 3)
+    for screen in (False, True)
+    for mode in ("fixed", "scripted")
+]
+GRID_SIZE = len(GRID)  # 2496
+
+
 def gen(seed, idx, tier):
     rnd = substream(seed, idx, "c05")
-    engine_a = rnd.random() < 0.15
+    cell = GRID[idx] if idx < GRID_SIZE else None
+    engine_a = cell is None and rnd.random() < 0.15
     if engine_a:
         return gen_engine_a(rnd)
     longer = rnd.random() < 0.06
     N = rnd.randint(13, 40) if longer else rnd.randint(0, 12)
     k = rnd.randint(1, N + 2)
     mode = rnd.choice(["fixed", "fixed", "scripted", "scripted", "edge"])
+    if cell is not None:
+        N, k, _therm, _probes, _screen, mode = cell
     if mode == "fixed":
         d = rnd.choice([0.01, 0.1, 0.25, 0.3, 1e-3, 0.125])
         dts = [d] * (N + 3)
@@ -65,6 +83,8 @@ def gen(seed, idx, tier):
         else:
             solve_time = scen.seq_sum(dts, N - 1) + dts[N - 1] * rnd.choice([0.5, 0.999, 0.01])
     therm = rnd.random() < 0.3
+    if cell is not None:
+        therm = cell[2]
     dts_T = []
     skip_time = 0.0
     if therm:
@@ -72,8 +92,15 @@ def gen(seed, idx, tier):
         dts_T = [scen.r3(rnd.choice([0.02, 0.05, 0.3]))] * (NT + 2)
         skip_time = scen.seq_sum(dts_T, NT - 1) + dts_T[0] * 0.5
     n_probes = rnd.choice([0, 2, 3])
+    if cell is not None:
+        n_probes = cell[3]
     dev = scen.gen_device(rnd, size="tiny", n_terminals=0, n_probes=n_probes, n_holes=0, length_units="um", gamma=1.0)
     dev["mesh"]["smooth"] = 0
+    if cell is not None:
+        # one fixed, known-good geometry for the enumerated grid (a discarded cell would be a hole in it)
+        dev["film"] = {"kind": "box", "w": 4.13, "h": 3.07, "npts": 14}
+        dev["layer"] = {"xi": 0.5, "lam": 2.0, "d": 0.1, "u": 5.79, "gamma": 1.0, "z0": 0.0}
+        dev["probes"] = [[-1.2, 0.8], [1.2, 0.8], [0.0, -0.8]][:n_probes] if n_probes else None
     out = None
     if rnd.random() < 0.6:
         out = {"path": rnd.choice(["out.h5", "sub/dir/out.h5", "a.b/out.v2.h5"]), "absolute": rnd.random() < 0.8}
@@ -84,7 +111,7 @@ def gen(seed, idx, tier):
         dt_max=max(dts + dts_T) * 2,
         adaptive=rnd.random() < 0.5,
         save_every=k,
-        include_screening=rnd.random() < 0.3,
+        include_screening=(rnd.random() < 0.3) if cell is None else cell[4],
     )
     dyn_field = rnd.random() < 0.25
     field = {"kind": "ramp", "B": 0.1, "tmin": 0.0, "tmax": 10.0} if dyn_field else {"kind": "zero"}
@@ -98,7 +125,7 @@ def gen(seed, idx, tier):
         "observer": {"output": out},
         "env": {},
         "faults": [],
-        "meta": {"N": N, "k": k, "mode": mode, "end": end_mode, "therm": therm},
+        "meta": {"N": N, "k": k, "mode": mode, "end": end_mode, "therm": therm, "grid_cell": idx if cell is not None else None},
     }
 
 
@@ -221,7 +248,9 @@ def run(scn):
             scn.get("meta", {}).get("mode"),
             scn.get("meta", {}).get("end"),
         )
-        return base.summarize(scn, h, V, nontrivial, sig, extra={"grid": bucket if scn.get("physics") == "stub" else None, "frames": nfr})
+        res = base.summarize(scn, h, V, nontrivial, sig, extra={"grid": bucket if scn.get("physics") == "stub" else None, "frames": nfr})
+        res["grid_cell"] = scn.get("meta", {}).get("grid_cell")
+        return res
     finally:
         sim.cleanup()
 
@@ -251,3 +280,13 @@ def shrink(scn):
         for k2 in (1, 2, 3):
             if o["save_every"] > k2:
                 yield base.with_path(scn, ["options", "save_every"], k2)
+
+
+def evidence_extra(results):
+    cells = {}
+    for r in results:
+        g = r.get("grid_cell")
+        if g is not None:
+            cells[g] = r["discard"] is None and r["outcome"] in ("solution",)
+    done = sum(1 for v in cells.values() if v)
+    return {"enumerated_grid": {"cells": GRID_SIZE, "executed_and_checked": done, "complete": done == GRID_SIZE, "dimensions": "N 0..12 x k 1..N+2 x thermalisation x probes {0,2,3} x screening x dt {fixed, scripted}"}}
